@@ -370,13 +370,25 @@ func Run(sc *Scenario, frameCheck func(dir int, f *wire.Frame) string) Result {
 	}
 	topo.AB.Decide = mkDecide(0)
 	topo.BA.Decide = mkDecide(1)
+	var maxAckDelivered [2]int64
 	mkDeliver := func(dir int) func(f *wire.Frame) {
 		return func(f *wire.Frame) {
 			t, err := DecodeTCP(f.Proto, f.Data)
-			if err == nil && t != nil {
-				resMu.Lock()
-				res.LastWndDelivered[1-dir] = int(t.Window)
-				resMu.Unlock()
+			if err == nil && t != nil && t.Flags&rfc.ACK != 0 {
+				// only an ACK that is not older than the newest one delivered so far tells the
+				// sender anything about the window (a stale one is ignored by the sender)
+				omu.Lock()
+				ackRel := int64(t.Ack - obs[1-dir].iss)
+				fresh := ackRel >= maxAckDelivered[1-dir]
+				if fresh {
+					maxAckDelivered[1-dir] = ackRel
+				}
+				omu.Unlock()
+				if fresh {
+					resMu.Lock()
+					res.LastWndDelivered[1-dir] = int(t.Window)
+					resMu.Unlock()
+				}
 			}
 			if err != nil || t == nil || len(t.Payload) == 0 {
 				return
